@@ -524,6 +524,13 @@ Proof.
   intros H. rewrite fail_reader_eq. apply Inv_do_close, Inv_reader_done; [apply latch_err|]. now apply Inv_latch.
 Qed.
 
+Lemma Inv_reader_fail all full s tr : Inv all full s tr -> Inv all full (reader_fail_step s) tr.
+Proof.
+  intros HI. unfold reader_fail_step. destruct (m_reader_done s); [exact HI|].
+  destruct (m_closed s); [|now apply Inv_fail_reader].
+  apply Inv_reader_done; [apply latch_err|now apply Inv_latch].
+Qed.
+
 Lemma Inv_conn_close all full s tr id : Inv all full s tr -> Inv all full (conn_close_step id s) tr.
 Proof.
   intros [H1 H2 H3 H4 H5]. unfold conn_close_step. constructor; cbn [m_conns m_err m_closed m_reader_done m_rx set_conns].
@@ -686,6 +693,7 @@ Proof.
   - inversion Hstep; subst. apply Inv_trace; [intros i; reflexivity|]. now apply Inv_do_close.
   - inversion Hstep; subst. apply Inv_trace; [intros i; reflexivity|]. now apply Inv_conn_close.
   - inversion Hstep; subst. apply Inv_trace; [intros i; reflexivity|]. now apply Inv_set_tx.
+  - inversion Hstep; subst. apply Inv_trace; [intros i; reflexivity|]. now apply Inv_reader_fail.
 Qed.
 
 Lemma Inv_run all full mp : Forall wf_frame all -> forall evs s tr s' tr',
@@ -817,6 +825,9 @@ Proof.
   - split; [|discriminate]. now rewrite do_close_err.
   - split; [exact H|discriminate].
   - split; [exact H|discriminate].
+  - split; [|discriminate]. unfold reader_fail_step, fail_reader.
+    destruct (m_reader_done s); [exact H|]. destruct (m_closed s); cbn [set_reader_done m_err];
+      rewrite ?do_close_err, (latch_some _ _ _ H); exact H.
 Qed.
 
 Theorem error_latched_run mp : forall evs s e s' tr, m_err s = Some e -> run_mp mp s evs = (s', tr) ->
@@ -847,6 +858,7 @@ Proof.
   - unfold do_close. now rewrite H.
   - exact H.
   - exact H.
+  - unfold reader_fail_step. destruct (m_reader_done s); [exact H|]. rewrite H. unfold latch. destruct (m_err s); exact H.
 Qed.
 
 Theorem no_block_after_close mp ws n qlen opened evs s tr ev :
@@ -905,6 +917,7 @@ Proof.
   - unfold conn_close_step. rewrite queue_in_upd by apply keeps_unmap. unfold queue_in.
     destruct (find_conn id (m_conns s)); [|reflexivity]. destruct (c_id c =? id0); reflexivity.
   - reflexivity.
+  - unfold reader_fail_step. destruct (m_reader_done s); [reflexivity|]. rewrite H. unfold latch. destruct (m_err s); reflexivity.
 Qed.
 
 Theorem drain_after_close mp id : forall evs s s' tr, m_closed s = true -> run_mp mp s evs = (s', tr) ->
@@ -1029,6 +1042,10 @@ Proof.
   - inversion Hstep; subst. destruct HI as (tl&w&Ha&Hb&Hc). exists tl, w. cbn [m_tx m_tx_broken set_tx].
     rewrite ok_writes_app. cbn [ok_writes flat_map]. rewrite app_nil_r.
     split; [exact Ha|]. split; [exact Hb|discriminate].
+  - inversion Hstep; subst. assert (Ht : m_tx (reader_fail_step s) = m_tx s /\ m_tx_broken (reader_fail_step s) = m_tx_broken s).
+    { unfold reader_fail_step. destruct (m_reader_done s); [split; reflexivity|].
+      destruct (m_closed s); [cbn [m_tx m_tx_broken set_reader_done]; apply tx_latch|apply tx_fail_reader]. }
+    destruct Ht. (eapply TxInv_same; [ | | |exact HI]; auto).
 Qed.
 
 Theorem tx_between mp : forall evs s tr s' tr', TxInv mp s tr -> run_mp mp s evs = (s', tr') -> TxInv mp s' (tr ++ tr').
